@@ -129,3 +129,12 @@ Definition block_content (b : block) : list (list (str * str)) :=
   | _ => []
   end.
 Definition content (d : doc) : list (list (str * str)) := flat_map block_content d.
+
+(* ---------------- the list reading of a paragraph (the specification of the lookups) ---------------- *)
+Definition spec_keys (l : list (str * str)) : list str := map fst l.
+Definition spec_get_all (l : list (str * str)) (k : str) : list str :=
+  map snd (filter (fun kv => str_eqb (fst kv) k) l).
+Definition spec_get (l : list (str * str)) (k : str) : option str :=
+  match filter (fun kv => str_eqb (fst kv) k) l with [] => None | kv :: _ => Some (snd kv) end.
+Definition spec_contains (l : list (str * str)) (k : str) : bool :=
+  existsb (fun kv => str_eqb (fst kv) k) l.
